@@ -381,4 +381,247 @@ def diskRead (bs : List Nat) : Except Err (List Text) :=
 /-- lines that can be framed by a line terminator: none inside -/
 def noNl (l : Text) : Bool := l.all (fun c => !(c == CR || c == LF))
 
+
+/-! ## C.1 Python's `csv.reader` (Modules/_csv.c, `parse_process_char`; strict=False, QUOTE_MINIMAL) -/
+
+inductive CsvSt where
+  | startRecord | startField | escapedChar | inField | inQuoted | escInQuoted | quoteInQuoted
+  | eatCrnl | afterEscCrnl
+  deriving DecidableEq, Repr
+
+structure Dialect where
+  delim : Nat
+  quote : Option Nat
+  esc : Option Nat
+  doublequote : Bool
+  skipInit : Bool
+  deriving DecidableEq, Repr
+
+/-- reader state: automaton state, the field buffer, the fields of the record so far -/
+structure CsvR where
+  st : CsvSt
+  field : Text
+  fields : List Text
+  deriving DecidableEq, Repr
+
+def CsvR.reset : CsvR := ⟨.startRecord, [], []⟩
+
+def isNl (c : Nat) : Bool := c == 10 || c == 13
+
+/-- `parse_save_field` then go to `st` -/
+def saveField (r : CsvR) (st : CsvSt) : CsvR := ⟨st, [], r.fields ++ [r.field]⟩
+/-- `parse_add_char` then go to `st` -/
+def addChar (r : CsvR) (c : Nat) (st : CsvSt) : CsvR := ⟨st, r.field ++ [c], r.fields⟩
+def goto (r : CsvR) (st : CsvSt) : CsvR := ⟨st, r.field, r.fields⟩
+
+/-- `case START_FIELD` (also reached by fall-through from START_RECORD); `none` is the EOL
+pseudo character fed after each line -/
+def csvStartField (d : Dialect) (r : CsvR) : Option Nat → CsvR
+  | none => saveField r .startRecord
+  | some c =>
+    if isNl c then saveField r .eatCrnl
+    else if d.quote = some c then goto r .inQuoted
+    else if d.esc = some c then goto r .escapedChar
+    else if c = 32 ∧ d.skipInit = true then goto r .startField
+    else if c = d.delim then saveField r .startField
+    else addChar r c .inField
+
+/-- `case IN_FIELD` -/
+def csvInField (d : Dialect) (r : CsvR) : Option Nat → CsvR
+  | none => saveField r .startRecord
+  | some c =>
+    if isNl c then saveField r .eatCrnl
+    else if d.esc = some c then goto r .escapedChar
+    else if c = d.delim then saveField r .startField
+    else addChar r c .inField
+
+def csvChar (d : Dialect) (r : CsvR) (c : Option Nat) : Except Err CsvR :=
+  match r.st with
+  | .startRecord =>
+    match c with
+    | none => .ok r
+    | some ch => if isNl ch then .ok (goto r .eatCrnl) else .ok (csvStartField d r c)
+  | .startField => .ok (csvStartField d r c)
+  | .escapedChar =>
+    match c with
+    | none => .ok (addChar r 10 .inField)
+    | some ch => if isNl ch then .ok (addChar r ch .afterEscCrnl) else .ok (addChar r ch .inField)
+  | .afterEscCrnl =>
+    match c with
+    | none => .ok r
+    | some _ => .ok (csvInField d r c)
+  | .inField => .ok (csvInField d r c)
+  | .inQuoted =>
+    match c with
+    | none => .ok r
+    | some ch =>
+      if d.esc = some ch then .ok (goto r .escInQuoted)
+      else if d.quote = some ch then .ok (goto r (if d.doublequote then .quoteInQuoted else .inField))
+      else .ok (addChar r ch .inQuoted)
+  | .escInQuoted => .ok (addChar r (c.getD 10) .inQuoted)
+  | .quoteInQuoted =>
+    match c with
+    | none => .ok (saveField r .startRecord)
+    | some ch =>
+      if d.quote = some ch then .ok (addChar r ch .inQuoted)
+      else if ch = d.delim then .ok (saveField r .startField)
+      else if isNl ch then .ok (saveField r .eatCrnl)
+      else .ok (addChar r ch .inField)
+  | .eatCrnl =>
+    match c with
+    | none => .ok (goto r .startRecord)
+    | some ch => if isNl ch then .ok r else .error .csvError
+
+/-- the characters of (part of) a line -/
+def csvFeed (d : Dialect) (r : CsvR) : Text → Except Err CsvR
+  | [] => .ok r
+  | c :: t => match csvChar d r (some c) with
+    | .error e => .error e
+    | .ok r1 => csvFeed d r1 t
+
+/-- one line from the input iterator: its characters, then EOL -/
+def csvLine (d : Dialect) (r : CsvR) (l : Text) : Except Err CsvR :=
+  match csvFeed d r l with
+  | .error e => .error e
+  | .ok r1 => csvChar d r1 none
+
+/-- `list(csv.reader(lines, **dialect))`: a record ends when the state is START_RECORD after a
+line; at the end of the input an unfinished record is returned if it has a non-empty field
+buffer or is inside quotes -/
+def csvRecords (d : Dialect) (r : CsvR) : List Text → Except Err (List (List Text))
+  | [] => if r.field ≠ [] ∨ r.st = .inQuoted then .ok [r.fields ++ [r.field]] else .ok []
+  | l :: ls =>
+    match csvLine d r l with
+    | .error e => .error e
+    | .ok r1 =>
+      if r1.st = .startRecord then
+        match csvRecords d CsvR.reset ls with
+        | .error e => .error e
+        | .ok rs => .ok (r1.fields :: rs)
+      else csvRecords d r1 ls
+
+/-- Python `str.isspace` / the characters `str.strip()` removes -/
+def isPySpace (c : Nat) : Bool :=
+  (9 ≤ c && c ≤ 13) || (28 ≤ c && c ≤ 32) || c == 133 || c == 160 || c == 5760 ||
+  (8192 ≤ c && c ≤ 8202) || c == 8232 || c == 8233 || c == 8239 || c == 8287 || c == 12288
+
+def strip (t : Text) : Text := ((t.dropWhile isPySpace).reverse.dropWhile isPySpace).reverse
+
+/-- coba's default csv dialect (`csv.excel`) with a chosen delimiter -/
+def excel (delim : Nat) : Dialect := ⟨delim, some 34, none, true, false⟩
+
+/-- `CsvReader(has_header, **dialect).filter(lines)` as written: lines are stripped, empty ones
+dropped, the first record is taken with `next` (StopIteration when there is none) -/
+def csvReaderCur (d : Dialect) (hasHeader : Bool) (lines : List Text) :
+    Except Err (Option (List Text) × List (List Text)) :=
+  match csvRecords d CsvR.reset ((lines.map strip).filter (· ≠ [])) with
+  | .error e => .error e
+  | .ok [] => .error .stopIteration
+  | .ok (first :: rest) => if hasHeader then .ok (some first, rest) else .ok (none, first :: rest)
+
+/-- repaired (fixes/C12-csv-strip.diff, C12-csv-empty.diff): only line terminators are removed,
+an input without records gives no rows -/
+def csvReaderFix (d : Dialect) (hasHeader : Bool) (lines : List Text) :
+    Except Err (Option (List Text) × List (List Text)) :=
+  match csvRecords d CsvR.reset ((lines.map rstripNl).filter (· ≠ [])) with
+  | .error e => .error e
+  | .ok [] => .ok (none, [])
+  | .ok (first :: rest) => if hasHeader then .ok (some first, rest) else .ok (none, first :: rest)
+
+/-! ### RFC 4180 writer (spec side) -/
+
+def DQ : Nat := 34
+
+def csvEscape : Text → Text
+  | [] => []
+  | c :: t => if c = DQ then DQ :: DQ :: csvEscape t else c :: csvEscape t
+
+/-- a field must be quoted when it holds the delimiter, a quote or a line break -/
+def mustQuote (delim : Nat) (f : Text) : Bool := f.any (fun c => c == delim || c == DQ || isNl c)
+
+/-- a field as written: quoted (writer's choice `q`, forced when `mustQuote`) or bare -/
+def csvWriteField (delim : Nat) (x : Bool × Text) : Text :=
+  if x.1 || mustQuote delim x.2 then DQ :: (csvEscape x.2 ++ [DQ]) else x.2
+
+def csvWriteRow (delim : Nat) : List (Bool × Text) → Text
+  | [] => []
+  | [x] => csvWriteField delim x
+  | x :: y :: xs => csvWriteField delim x ++ delim :: csvWriteRow delim (y :: xs)
+
+/-- what an RFC 4180 writer may be asked to write as one record on one line: at least one field,
+no line breaks inside fields (they cannot travel in a line), a lone empty field is quoted -/
+def csvRowOk (row : List (Bool × Text)) : Bool :=
+  row ≠ [] && row.all (fun x => x.2.all (fun c => !isNl c)) &&
+  (match row with | [x] => x.2 ≠ [] || x.1 | _ => true)
+
+/-! ## C.2 LibSVM / Manik -/
+
+def splitOnGo (sep : Nat) (cur : Text) : Text → List Text
+  | [] => [cur]
+  | c :: t => if c = sep then cur :: splitOnGo sep [] t else splitOnGo sep (cur ++ [c]) t
+
+/-- `s.split(sep)` for a one-character separator -/
+def splitOn (sep : Nat) (t : Text) : List Text := splitOnGo sep [] t
+
+structure SvmRow where
+  labels : List Text
+  feats : List (Text × Text)
+  deriving DecidableEq, Repr
+
+def SP : Nat := 32
+def COLON : Nat := 58
+def COMMA : Nat := 44
+
+/-- `k,v = i.split(":")` for each item (ValueError unless exactly two pieces) -/
+def svmFeats : List Text → Except Err (List (Text × Text))
+  | [] => .ok []
+  | i :: is =>
+    match splitOn COLON i with
+    | [k, v] => (match svmFeats is with | .error e => .error e | .ok r => .ok ((k, v) :: r))
+    | _ => .error .valueError
+
+/-- one non-empty line of `LibsvmReader.filter`; `none` = the line is skipped (no label) -/
+def svmLine (line : Text) : Except Err (Option SvmRow) :=
+  match splitOn SP (strip line) with
+  | [] => .ok none
+  | first :: items =>
+    if first = [] ∨ COLON ∈ first then .ok none
+    else match svmFeats items with
+      | .error e => .error e
+      | .ok fs => .ok (some ⟨splitOn COMMA first, fs⟩)
+
+def libsvmRead : List Text → Except Err (List SvmRow)
+  | [] => .ok []
+  | l :: ls =>
+    if l = [] then libsvmRead ls
+    else match svmLine l with
+      | .error e => .error e
+      | .ok o => match libsvmRead ls with
+        | .error e => .error e
+        | .ok rs => .ok (match o with | some r => r :: rs | none => rs)
+
+/-- `ManikReader`: the first line is metadata -/
+def manikRead (lines : List Text) : Except Err (List SvmRow) := libsvmRead (lines.drop 1)
+
+def joinWith (sep : Nat) : List Text → Text
+  | [] => []
+  | [x] => x
+  | x :: y :: xs => x ++ sep :: joinWith sep (y :: xs)
+
+def svmWriteFeats : List (Text × Text) → Text
+  | [] => []
+  | (k, v) :: fs => SP :: (k ++ COLON :: v) ++ svmWriteFeats fs
+
+/-- `label1,label2 k:v k:v …` -/
+def svmWriteRow (r : SvmRow) : Text := joinWith COMMA r.labels ++ svmWriteFeats r.feats
+
+def tokenOk (bad : List Nat) (t : Text) : Bool := t.all (fun c => !isPySpace c && !bad.contains c)
+
+/-- rows a LibSVM writer produces: at least one label, the label group not empty, tokens without
+white space, labels without `,`/`:`, indices and values without `:` -/
+def svmRowOk (r : SvmRow) : Bool :=
+  r.labels ≠ [] && joinWith COMMA r.labels ≠ [] &&
+  r.labels.all (tokenOk [COMMA, COLON]) &&
+  r.feats.all (fun kv => tokenOk [COLON] kv.1 && tokenOk [COLON] kv.2)
+
 end Coba.C12
